@@ -170,13 +170,13 @@ def generate(rng, focus, tier="quick"):
                     "amt": {"v": -rng.choice([0.01, 1.0, 1e3, _amount(rng) + 0.01])}, "fault": kind}
         if kind == "overdraw_account":
             return {"k": "awd", "amt": {"of": "master", "mul": rng.choice([1.0, 1.0, 2.0]),
-                                        "add": rng.choice([0.01, 1.0, 1e3])}, "fault": kind}
+                                        "add": rng.choice([0.0001, 0.004, 0.01, 1.0, 1e3])}, "fault": kind}
         if kind == "overdraw_portfolio":
             return {"k": "pwd", "pid": pid, "amt": {"of": "pf", "mul": rng.choice([1.0, 1.0, 2.0]),
-                                                   "add": rng.choice([0.01, 1.0, 1e3])}, "fault": kind}
+                                                   "add": rng.choice([0.0001, 0.004, 0.01, 1.0, 1e3])}, "fault": kind}
         if kind == "overfund_portfolio":
             return {"k": "psub", "pid": pid, "amt": {"of": "master", "mul": 1.0,
-                                                    "add": rng.choice([0.01, 1.0, 1e3])}, "fault": kind}
+                                                    "add": rng.choice([0.0001, 0.004, 0.01, 1.0, 1e3])}, "fault": kind}
         if kind == "unknown_portfolio":
             api = rng.choice(["psub", "pwd", "order", "get_cash", "get_mv", "get_eq", "get_dict"])
             bad = rng.choice(["nope", "p9", "", "P1"])
@@ -280,10 +280,23 @@ def generate(rng, focus, tier="quick"):
             else:
                 amt = {"of": "master", "mul": round(rng.uniform(0.0, 0.9), 3), "add": 0.0}
             emit({"k": "awd", "amt": amt})
-        elif r < 0.935:
+        elif r < 0.93:
             pid = rng.choice(sh["pids"])
             a = rng.choice(assets)
             emit({"k": "mark", "pid": pid, "asset": a, "price": max(0.01, round(sh["quotes"][a] * math.exp(rng.gauss(0, 0.05)), 4))})
+        elif r < 0.94:
+            pid = rng.choice(sh["pids"])
+            a = rng.choice(assets)
+            n = rng.randrange(1, 4)
+            oid = rng.randrange(1000)
+            for j in range(n):
+                same = j > 0 and rng.random() < 0.7
+                if not same:
+                    oid = rng.randrange(1000)
+                emit({"k": "pftxn", "pid": pid, "asset": a, "qty": _qty(rng) if rng.random() < 0.7 else rng.choice([100, -100, 40, -40]),
+                      "price": max(0.01, round(sh["quotes"][a] * math.exp(rng.gauss(0, 0.05)), 4)),
+                      "comm": rng.choice([0.0, 0.0, 1.0, 2.5, round(rng.uniform(0, 50), 2)]), "oid": oid, "same_oid": same})
+            sh["held"].add((pid, a))
         elif r < 0.945:
             emit({"k": "broker2", "pid": rng.choice(PIDS), "funds": rng.choice([1e3, 1e5, 77.7]),
                   "asset": rng.choice(assets), "qty": _qty(rng)})
@@ -309,9 +322,10 @@ def generate(rng, focus, tier="quick"):
 # ---------------------------------------------------------------------------
 
 class MPos(object):
-    __slots__ = ("net", "last", "fills", "epoch_id")
+    __slots__ = ("net", "last", "fills", "epoch_id", "clock")
 
     def __init__(self, epoch_id):
+        self.clock = None     # time of the last mark or fill of this position
         self.net = 0
         self.last = None
         self.fills = []       # (price float, qty int, commission float) since the position was opened
@@ -836,7 +850,7 @@ class Exec(object):
         Both are only reachable after the broker clock has been moved backwards.
         """
         m = self.m
-        if m.any_position() and m.last_tick is not None and t < m.last_tick:
+        if any(pos.clock is not None and t < pos.clock for p in m.pfs.values() for pos in p.pos.values()):
             return "clock_regress", "update(earlier than the last mark of an open position)"
         if is_open_ref(t) and any(p.pending and t < p.clock for p in m.pfs.values()):
             return "clock_regress_pending", "update(earlier than the clock of a portfolio with pending orders)"
@@ -921,6 +935,7 @@ class Exec(object):
             raise StopRun()
         for pid, a, mid in marks:
             m.pfs[pid].pos[a].last = mid
+            m.pfs[pid].pos[a].clock = t
         # --- what should have filled (C04) ---
         expected = {}
         for pid in m.order:
@@ -992,6 +1007,7 @@ class Exec(object):
         m.last_tick = t
         for pid, a, mid in marks:
             m.pfs[pid].pos[a].last = mid
+            m.pfs[pid].pos[a].clock = t
         for c in s.captured:
             self._apply_fill(c, t, tstamp)
         for pid in m.order:
@@ -1002,7 +1018,7 @@ class Exec(object):
             m.pfs[pid].pending = [o for o in m.pfs[pid].pending if o["oid"] in left]
         return False
 
-    def _apply_fill(self, c, t, tstamp):
+    def _apply_fill(self, c, t, tstamp, direct=False):
         """Book one captured transaction into the ledger; judge C05 on it."""
         s, m, ctx = self.s, self.m, self.ctx
         pid, a, q = c["pid"], c["asset"], c["qty"]
@@ -1011,12 +1027,12 @@ class Exec(object):
         o = self.orders.get(c["oid"])
         if o is not None:
             o["fills"] += 1
-        if ctx.judging("C04"):
+        if ctx.judging("C04") and not direct:
             if o is None:
                 ctx.violate("C04", "fill_without_submitted_order", {"txn": [a, q, str(c["oid"])]})
             elif o["fills"] > 1:
                 ctx.violate("C04", "order_filled_more_than_once", {"oid": c["oid"], "asset": a, "qty": q})
-        if ctx.judging("C05"):
+        if ctx.judging("C05") and not direct:
             bid, ask = s.qb.bid_ask(a)
             want = ask if q > 0 else bid
             ctx.check("C05", c["dt"] == tstamp, "fill_not_stamped_with_update_time",
@@ -1061,6 +1077,7 @@ class Exec(object):
         before = pos.net
         pos.net += q
         pos.last = price
+        pos.clock = t
         pos.fills.append((price, q, comm))
         if before != 0 and (before > 0) != (pos.net > 0) and pos.net != 0:
             ctx.fault("flip_through_zero")
@@ -1111,7 +1128,8 @@ class Exec(object):
         pid, a = op["pid"], op["asset"]
         if pid not in m.pfs or a not in m.pfs[pid].pos:
             return False
-        if m.now < m.pfs[pid].clock or (m.last_tick is not None and m.now < m.last_tick):
+        pc = m.pfs[pid].pos[a].clock
+        if m.now < m.pfs[pid].clock or (pc is not None and m.now < pc):
             return False
         price = float(op["price"])
         ok, exc = self._call(s.broker.portfolios[pid].update_market_value_of_asset, a, price, ts(m.now))
@@ -1120,7 +1138,37 @@ class Exec(object):
             ctx.violate("C02", "valid_mark_refused", {"op": op, "exc": repr(exc)[:200]})
             return False
         m.pfs[pid].pos[a].last = price
+        m.pfs[pid].pos[a].clock = m.now
         ctx.probe("direct_price_mark")
+        return False
+
+    def op_pftxn(self, op):
+        """A legal transaction booked directly on the portfolio: arbitrary price and commission, order id
+        possibly shared with the previous fill (one order worked in several clips at one instant)."""
+        from qstrader.broker.transaction.transaction import Transaction
+        s, m, ctx = self.s, self.m, self.ctx
+        pid, a = op["pid"], op["asset"]
+        if pid not in m.pfs:
+            return False
+        p = m.pfs[pid]
+        if m.now < p.clock or (a in p.pos and p.pos[a].clock is not None and m.now < p.pos[a].clock):
+            return False
+        oid = "direct-%s" % (op["oid"],)
+        tstamp = ts(m.now)
+        txn = Transaction(a, int(op["qty"]), tstamp, float(op["price"]), oid, commission=float(op["comm"]))
+        ok, exc = self._call(s.broker.portfolios[pid].transact_asset, txn)
+        ctx.event("pftxn", pid, a, op["qty"], float(op["price"]), float(op["comm"]), ok)
+        if not ok:
+            for pr in ("C01", "C02", "C03"):
+                ctx.violate(pr, "valid_transaction_refused", {"op": op, "exc": repr(exc)[:200]})
+            raise StopRun()
+        for c in s.captured:
+            if c["oid"] == oid and not c.get("booked"):
+                c["booked"] = True
+                self._apply_fill(c, m.now, tstamp, direct=True)
+        ctx.probe("direct_transaction")
+        if op.get("same_oid"):
+            ctx.probe("direct_transaction_repeating_order_id_and_time")
         return False
 
     def op_broker2(self, op):
